@@ -413,6 +413,10 @@ func (r *Run) doOp(sc *plan.Script, idx int, op *plan.Op, rec *plan.Rec) {
 		r.doValueOp(sc, op, rec)
 		return
 	}
+	if op.K == "pipe" {
+		r.doPipe(sc, op, rec)
+		return
+	}
 	c, err := r.client(sc)
 	if err != nil {
 		rec.Err = "other:client:" + err.Error()
